@@ -122,6 +122,23 @@ def pcgls_preconditioner(c, branch, form='matrix'):
         config.MAX_DIM_INV = old
 
 
+def cgls_large_norm_start(c, cls):
+    """'from any starting point': a start vector (or solution) of large norm - the same well-conditioned system in other units. The solver either reaches its
+    relative-residual criterion, or uses up its iteration budget (k == maxit tells the caller); it must not hand back an unconverged point after a few
+    iterations without any sign (bounded stand-in: native)"""
+    m, n = 4, 3
+    A = np.array([[c.real(f'A{i}{j}') for j in range(n)] for i in range(m)]) + np.vstack([2 * np.eye(n), np.zeros((1, n))])
+    b = np.array([c.real(f'b{i}') for i in range(m)])
+    x0 = 3e6 * np.ones(n) + np.array([c.real(f'x0{j}') for j in range(n)])
+    tol, maxit = 1e-6, 200
+    if cls == 'CGLS': xs, k = S.CGLS(A, b, x0.copy(), maxit, tol).solve()
+    else:
+        import scipy.sparse as sp
+        xs, k = S.PCGLS(A, b, x0.copy(), sp.identity(n, format='csc'), maxit, tol).solve()
+    g0 = np.linalg.norm(A.T @ (b - A @ x0)); g = np.linalg.norm(A.T @ (b - A @ xs))
+    c.holds('stops_before_the_budget_only_at_the_relative_residual_criterion', bool(k >= maxit or g <= 10 * tol * g0), note=f"stopped after {k} of {maxit} iterations with |A^T r| = {g:.3g} (start {g0:.3g})")
+
+
 def lm_converged(c, problem, nu0):
     """the REAL Levenberg-Marquardt solver run to convergence on standard non-linear least-squares problems (starting points perturbed), for default and
     non-default damping floors nu0: the returned point is a stationary point of the sum of squares (bounded stand-in: native)"""
@@ -371,4 +388,6 @@ def jobs(tier):
         for nu0 in (1e-3, 1.0, 10.0):
             if problem.endswith('small_units') and nu0 > 1e-3: continue     # damping far above |J^T J|: (slow) gradient descent, convergence within a budget is not promised
             J.append(Job(f'LM:real_constructor:run_to_convergence:{problem}:nu0={nu0:g}', lambda c, p_=problem, nu0=nu0: lm_converged(c, p_, nu0), 'B', F('LM.__init__', 'LM.solve'), nnum=3))
+    for cls in ('CGLS', 'PCGLS'):
+        J.append(Job(f'{cls}:real_constructor:start_vector_of_large_norm', lambda c, cls=cls: cgls_large_norm_start(c, cls), 'B', F(f'{cls}.solve'), nnum=3))
     return J
